@@ -407,7 +407,8 @@ func replay(c *mcx.Ctx, raw json.RawMessage) (string, string) {
 func init() {
 	mcx.Register(&mcx.Driver{
 		ID: "C14", Run: run, Replay: replay, KernelScheduled: true,
-		Rule: "(1) simulated child under the cooperative scheduler: for every write script of <= 4 (thorough 5) operations x exit 0 / 3, ALL interleavings (stateless DFS with state-hash pruning: per-thread position and observation hash, pipe contents and flags, channel queues) of the parent (the real RunCommand), the child thread, the goroutines RunCommand starts and os/exec-style copier threads at every pipe read / write / close, Start, Wait and channel operation, with pipes of 2 units; deadlock = no enabled thread; capture and status compared exactly in every schedule; (2) every write script of <= 3 (thorough 4) operations from {write 1/2/3 units to stdout, write 1/2/3 units to stderr, close stdout, close stderr} (1 unit = half the kernel pipe capacity, verified with F_GETPIPE_SZ; 3 units exceed the pipe) followed by exit 0 / 3 / 255, executed by a real child process through RunCommand; plus exits by signal, scripts with pauses, existing / missing working directory, volume scripts up to 1 MiB per stream (thorough: 4 MiB), non-ASCII text whose two-byte characters straddle every 32 KiB boundary, empty / nil / missing / non-executable commands, executables of an invalid format or with a missing interpreter and the by-products of InTotoRun. " +
+		Rule: "also: nine scripts with the caller's own standard output and error closed / failing every write; " +
+			"(1) simulated child under the cooperative scheduler: for every write script of <= 4 (thorough 5) operations x exit 0 / 3, ALL interleavings (stateless DFS with state-hash pruning: per-thread position and observation hash, pipe contents and flags, channel queues) of the parent (the real RunCommand), the child thread, the goroutines RunCommand starts and os/exec-style copier threads at every pipe read / write / close, Start, Wait and channel operation, with pipes of 2 units; deadlock = no enabled thread; capture and status compared exactly in every schedule; (2) every write script of <= 3 (thorough 4) operations from {write 1/2/3 units to stdout, write 1/2/3 units to stderr, close stdout, close stderr} (1 unit = half the kernel pipe capacity, verified with F_GETPIPE_SZ; 3 units exceed the pipe) followed by exit 0 / 3 / 255, executed by a real child process through RunCommand; plus exits by signal, scripts with pauses, existing / missing working directory, volume scripts up to 1 MiB per stream (thorough: 4 MiB), non-ASCII text whose two-byte characters straddle every 32 KiB boundary, empty / nil / missing / non-executable commands, executables of an invalid format or with a missing interpreter and the by-products of InTotoRun. " +
 			"Each write operation uses its own fill byte, so the capture is compared exactly. A hang is established structurally, never by a timeout: the child sits in write(2) on fd 1/2 (from /proc/<pid>/syscall) and the fill level of that pipe, read with FIONREAD on the parent's own end, equals the capacity and does not move over eight polls while RunCommand has not returned; a run without result after 60 s is inconclusive (exit 0, exhaustive:false). non-trivial = the script writes or exits non-zero. states = scripts, transitions = script operations.",
 		Assumptions: []string{"linux/amd64 (/proc/<pid>/syscall, write = syscall 1)", "the schedule between parent and child is whatever the kernel gives; deadlock on a full pipe does not depend on it"},
 	})
